@@ -1,6 +1,7 @@
 //! C17 harness, argument-order probe: twins whose attribute writes `target` before `parent` / `follows_from`
 //! (`corpus_o.rs`).  A separate binary: this tree's attr.rs rejects that order (known finding F172), and the
 //! rejection must not take the main corpus down.
+extern crate alloc; // `alloc::boxed::Box::pin` spellings of the corpus
 #[path = "../support.rs"]
 mod support;
 #[path = "../corpus_o.rs"]
